@@ -75,6 +75,8 @@ pub struct TmCfg {
     pub horizon: u32,
     pub alphabet: Vec<TEv>,
     pub max_events: usize,
+    /// Kind::Connect: use the combined (version-sniffing) server
+    pub combined: bool,
 }
 
 pub struct Tm {
@@ -176,7 +178,7 @@ impl Scenario for Tm {
     fn build(cfg: &TmCfg) -> Pin<Box<dyn Future<Output = Self>>> {
         let cfg = cfg.clone();
         Box::pin(async move {
-            let conn = start_endpoint(&cfg.ep, vec![], cfg.kind != Kind::Connect).await;
+            let conn = if cfg.combined { start_combined_server(&cfg.ep).await } else { start_endpoint(&cfg.ep, vec![], cfg.kind != Kind::Connect).await };
             Tm {
                 traffic_on: cfg.steady.is_some(),
                 completes: if cfg.kind == Kind::Connect { vec![] } else { vec![0] },
@@ -448,7 +450,12 @@ impl Scenario for Tm {
                 }
             }
             Kind::Connect => {
-                let ct = self.cfg.ep.connect_timeout as u32;
+                // combined server: the protocol version must be readable within its own timeout, the rest of
+                // CONNECT within the connect timeout counted from then; judged against the sum on the late side
+                // and against the smaller one on the early side
+                let pv = self.cfg.ep.pv_timeout as u32;
+                let ct = if self.cfg.combined { self.cfg.ep.connect_timeout as u32 + pv } else { self.cfg.ep.connect_timeout as u32 };
+                let early = if self.cfg.combined { pv.min(self.cfg.ep.connect_timeout as u32) } else { ct };
                 let accepted = self.conn.log.count(|r| matches!(r, Rec::Handshake(s) if s == "accepted")) > 0;
                 let complete_at = self.completes.first().copied();
                 let handlers = self.conn.log.count(|r| matches!(r, Rec::HEnter { .. } | Rec::PEnter { .. }));
@@ -456,7 +463,7 @@ impl Scenario for Tm {
                     return Err(Violation::new("handler-before-connect", self.wit(""), format!("handler invoked before CONNECT was accepted: {}", self.detail())));
                 }
                 match complete_at {
-                    Some(c) if c < 2 * ct => {
+                    Some(c) if c < 2 * early => {
                         if !accepted {
                             return Err(Violation::new("connect-in-time-dropped", self.wit(&format!("timeout {ct}s")), format!("CONNECT completed after {}s (timeout {ct}s) but was not accepted: {}", c as f32 / 2.0, self.detail())));
                         }
@@ -558,7 +565,7 @@ pub fn configs(tier: Tier) -> Vec<TmCfg> {
                     ep.handler_auto = false;
                     ep.max_receive = max_receive;
                     let alphabet = if steady.is_some() { vec![StopTraffic, Pkt, Busy, Done] } else { vec![Pkt, Part(3), Rest, Busy, Done] };
-                    v.push(TmCfg { ep, kind: Kind::KeepAlive, steady, horizon: late(t_impl.min(4)) + 6, alphabet, max_events });
+                    v.push(TmCfg { ep, kind: Kind::KeepAlive, steady, horizon: late(t_impl.min(4)) + 6, alphabet, max_events, combined: false });
                 }
             }
         }
@@ -567,7 +574,7 @@ pub fn configs(tier: Tier) -> Vec<TmCfg> {
             let mut ep = EpCfg::new(ver, Role::Server);
             ep.client_keepalive = 0;
             ep.handler_auto = false;
-            v.push(TmCfg { ep, kind: Kind::KeepAlive, steady: Some((20, Frag::Whole)), horizon: 70, alphabet: vec![Pkt], max_events: 1 });
+            v.push(TmCfg { ep, kind: Kind::KeepAlive, steady: Some((20, Frag::Whole)), horizon: 70, alphabet: vec![Pkt], max_events: 1, combined: false });
         }
         // ---- frame read rate: timeout 1 s, overall 3 s, more than 4 bytes per period
         for ka_k in [0u16, 3] {
@@ -576,21 +583,24 @@ pub fn configs(tier: Tier) -> Vec<TmCfg> {
             ep.hs_keepalive = if ka_k == 0 { None } else { Some(8) };
             ep.handler_auto = true;
             ep.frame_read_rate = Some((1, 3, 4));
-            v.push(TmCfg { ep, kind: Kind::ReadRate, steady: None, horizon: 16, alphabet: vec![Part(3), More(1), More(6), Rest, Pkt], max_events: if thorough { 6 } else { 5 } });
+            v.push(TmCfg { ep, kind: Kind::ReadRate, steady: None, horizon: 16, alphabet: vec![Part(3), More(1), More(6), Rest, Pkt], max_events: if thorough { 6 } else { 5 }, combined: false });
         }
         // ---- connect timeout 2 s
         {
             let mut ep = EpCfg::new(ver, Role::Server);
             ep.connect_timeout = 2;
             ep.handler_auto = true;
-            v.push(TmCfg { ep, kind: Kind::Connect, steady: None, horizon: 12, alphabet: vec![Part(5), More(3), Rest], max_events });
+            v.push(TmCfg { ep: ep.clone(), kind: Kind::Connect, steady: None, horizon: 12, alphabet: vec![Part(5), More(3), Rest], max_events, combined: false });
+            // combined server: protocol-version timeout 2 s, then connect timeout 2 s
+            ep.pv_timeout = 2;
+            v.push(TmCfg { ep, kind: Kind::Connect, steady: None, horizon: 18, alphabet: vec![Part(5), More(3), More(6), Rest], max_events, combined: true });
         }
         // ---- client pings
         for k in [0u16, 1, 2, 3] {
             let mut ep = EpCfg::new(ver, Role::Client);
             ep.client_keepalive = k;
             ep.handler_auto = false;
-            v.push(TmCfg { ep, kind: Kind::ClientPing, steady: None, horizon: 14, alphabet: vec![Busy, Done, StreamStart, StreamEnd], max_events: 3 });
+            v.push(TmCfg { ep, kind: Kind::ClientPing, steady: None, horizon: 14, alphabet: vec![Busy, Done, StreamStart, StreamEnd], max_events: 3, combined: false });
         }
     }
     v
@@ -609,7 +619,7 @@ pub fn run(tier: Tier) -> i32 {
         ck.explore::<Tm>("timers", i, c, &e);
     }
     ck.rule = format!(
-        "virtual clock, half-second grid, horizon = timeout + 5 s: v3/v5 server with keep-alive 1,2,3 s (client value), server override smaller / larger / with client value 0, and 0 = library default; background traffic absent or one complete packet per (period - 0.5 s) delivered whole, in two writes, or split across two slots; on top every placement of up to {} events (one more for the fragment families) out of {{traffic stops, extra packet, partial frame + rest, a handler becomes busy / completes (v3 max_receive 1: reading paused)}}; frame read rate (1 s, 3 s overall, > 4 bytes per period) with every placement of up to 5 fragment deliveries of 1 / 3 / 6 / rest bytes; connect timeout 2 s with CONNECT in up to three fragments; client keep-alive 0..3 s, idle or with a busy handler or with a streamed publish open across a ping. Oracle: timeout only after a gap >= the period (never for live peers, also after a reading pause), with DISCONNECT 0x8D on v5; an idle connection is ended within timeout + 1.5 s; read timeout never earlier than configured nor for a frame above the rate, always for a stalled one; CONNECT in time accepted, late one dropped, no handler before acceptance; client writes PINGREQ at least once per keep-alive period",
+        "virtual clock, half-second grid, horizon = timeout + 5 s: v3/v5 server with keep-alive 1,2,3 s (client value), server override smaller / larger / with client value 0, and 0 = library default; background traffic absent or one complete packet per (period - 0.5 s) delivered whole, in two writes, or split across two slots; on top every placement of up to {} events (one more for the fragment families) out of {{traffic stops, extra packet, partial frame + rest, a handler becomes busy / completes (v3 max_receive 1: reading paused)}}; frame read rate (1 s, 3 s overall, > 4 bytes per period) with every placement of up to 5 fragment deliveries of 1 / 3 / 6 / rest bytes; connect timeout 2 s with CONNECT in up to three fragments (single-version servers, and the combined server with a 2 s protocol-version timeout in front of it); client keep-alive 0..3 s, idle or with a busy handler or with a streamed publish open across a ping. Oracle: timeout only after a gap >= the period (never for live peers, also after a reading pause), with DISCONNECT 0x8D on v5; an idle connection is ended within timeout + 1.5 s; read timeout never earlier than configured nor for a frame above the rate, always for a stalled one; CONNECT in time accepted, late one dropped, no handler before acceptance; client writes PINGREQ at least once per keep-alive period",
         ecfg.max_dev
     );
     ck.assumptions = vec![
